@@ -746,6 +746,32 @@ func c13Gen(c *wk.Ctx, run, ci int) (*gen.Case, int) {
 		}
 		gc.OneError = true
 	}
+	if ci%4 == 0 && run%2 == 0 && len(gc.Files) >= 2 {
+		// a param that is consumed only through a cycle of data="all" calls between two files: two
+		// templates forward everything to each other, one of them also to a template that declares the
+		// param, an outside caller declares the param and hands it to the cycle without using it.
+		// Whatever the compiler decides about that caller, it must decide it under every file order.
+		f0, f1 := gc.Files[0], gc.Files[1]
+		full := func(from, to *gen.File, n string) string {
+			if from == to || from.Namespace == to.Namespace {
+				return "." + n
+			}
+			return to.Namespace + "." + n
+		}
+		fwd := func(calls ...string) []*gen.Node {
+			var body []*gen.Node
+			for _, cl := range calls {
+				body = append(body, &gen.Node{K: "call", Tmpl: cl, Data: "all"})
+			}
+			return []*gen.Node{{K: "text", S: "m"}, {K: "if", E: "false", Body: body}}
+		}
+		f0.Templates = append(f0.Templates,
+			&gen.Template{Name: "cya", NoDoc: false, Body: fwd(full(f0, f1, "cyb"))},
+			&gen.Template{Name: "cyd", Params: []gen.Param{{Name: "b"}}, Body: []*gen.Node{{K: "call", Tmpl: ".cya", Data: "all"}}})
+		f1.Templates = append(f1.Templates,
+			&gen.Template{Name: "cyb", Body: fwd(full(f1, f0, "cya"), ".cyc")},
+			&gen.Template{Name: "cyc", Params: []gen.Param{{Name: "b", Optional: true}}, Body: []*gen.Node{{K: "print", E: "$b"}}})
+	}
 	if ci%2 == 0 {
 		gc.GlobalsFile = true
 	} else if run%3 == 0 {
